@@ -86,6 +86,11 @@ PURE_SDK = (
     ' as core::default::Default>::default', 'soroban_sdk::Env::as_contract',
 )
 
+# client methods that are getters by interface contract (SEP-41 / the workspace's own interfaces)
+READONLY_METHODS = {'name', 'symbol', 'decimals', 'balance', 'allowance', 'version', 'owner', 'operator', 'admin',
+                    'authorized', 'is_minter', 'token_id', 'is_operator', 'is_message_approved', 'is_message_executed',
+                    'epoch', 'gas_collector', 'gateway', 'gas_service', 'is_trusted_chain', 'interchain_token_service'}
+
 TOKEN_EVENTS = ('approve', 'transfer', 'mint', 'burn', 'set_admin', 'clawback', 'set_authorized')
 
 
@@ -157,8 +162,9 @@ def classify(g, ctx, bb, t):
         a = A()
         method = t['cdef'].rsplit('::', 1)[-1] if t.get('cdef') else callee.rsplit('::', 1)[-1]
         try_ = method.startswith('try_')
-        return Eff('xcall', ctx, bb, callee, at, client=sa.split('::')[-1], method=method[4:] if try_ else method,
-                   try_=try_, target=client_target(a[0]), args=a[1:])
+        mname = method[4:] if try_ else method
+        return Eff('xcall', ctx, bb, callee, at, client=sa.split('::')[-1], method=mname,
+                   try_=try_, target=client_target(a[0]), args=a[1:], readonly=mname in READONLY_METHODS)
     # everything else must be provably irrelevant
     if crate in ('soroban_sdk', 'soroban_token_sdk', 'soroban_env_common', 'soroban_env_guest', 'soroban_env_host'):
         if any(p in callee for p in PURE_SDK):
@@ -185,7 +191,8 @@ STATE_KINDS = ('sw', 'sr', 'supd', 'pub', 'tokev', 'xcall', 'invoke', 'deploy', 
 
 
 def state_effects(g):
-    return [e for e in effects(g) if e.kind in STATE_KINDS]
+    """effects that change state or are externally visible (getter calls on other contracts excluded)"""
+    return [e for e in effects(g) if e.kind in STATE_KINDS and not (e.kind == 'xcall' and e.readonly)]
 
 
 def auths(g):
